@@ -61,6 +61,8 @@ class Ctx:
         self.specfuns = {}
         self.enums = {k: [m[0] for m in v] for k, v in consts["enums"].items()}
         self.enum_values = {k: [m[1] for m in v] for k, v in consts["enums"].items()}
+        self.enums["MidoKind"] = list(Exec.MIDO_KINDS) + ["other"] if False else ["note_on", "note_off", "time_signature", "key_signature", "control_change", "program_change", "other"]
+        self.enum_values["MidoKind"] = list(self.enums["MidoKind"])
         self.globals = {}     # name -> Val, for module constants (settings)
         for k, v in consts["settings"].items():
             if isinstance(v, int):
@@ -394,6 +396,14 @@ class Exec:
             return b.none_term()
         if isinstance(b, NoneV):
             return a.none_term()
+        if isinstance(a, EnumV) and isinstance(b, StrV) or isinstance(b, EnumV) and isinstance(a, StrV):
+            en, sv = (a, b) if isinstance(a, EnumV) else (b, a)
+            c_ = sv.const()
+            vals = self.ctx.enum_values.get(en.enum, [])
+            if c_ is None:
+                raise VCError("enum compared with a non-constant string")
+            core = z3.Or([en.v == k_ for k_, x_ in enumerate(vals) if x_ == c_] or [FALSE])
+            return z3.And(z3.Not(en.none_term()), core)
         if isinstance(a, StrV) or isinstance(b, StrV):
             return self.str_eq(a, b)
         if isinstance(a, TupleV) and isinstance(b, TupleV):
@@ -820,6 +830,16 @@ class Exec:
             for k in range(len(items) - 2, -1, -1):
                 r = self.ite(z3.Or(i.v == k, i.v == k - len(items)), items[k], r)
             return r
+        if isinstance(c, ConstDict) and isinstance(i, EnumV) and c.pairs and isinstance(c.pairs[0][0], StrV):
+            # a table keyed by the *value strings* of an enum, indexed with the member the string stands for
+            vals = self.ctx.enum_values[i.enum]
+            by = {k.const(): v for k, v in c.pairs}
+            self.safety("key present", st, z3.Or([i.v == j_ for j_, s_ in enumerate(vals) if s_ in by] or [FALSE]))
+            opts = [(j_, by[s_]) for j_, s_ in enumerate(vals) if s_ in by]
+            r = opts[-1][1]
+            for j_, v_ in reversed(opts[:-1]):
+                r = self.ite(i.v == j_, v_, r)
+            return r
         if isinstance(c, ConstDict):
             self.safety("key present", st, self.contains(c, i, st))
             if not c.pairs:
@@ -1022,6 +1042,16 @@ class Exec:
                 raise VCError(f"{n}(...) by non-integer value")
             if n in self.ctx.sources.classes:
                 raise VCError(f"constructor {n} must be hoisted (internal)")
+        if isinstance(f, ast.Attribute) and isinstance(f.value, ast.Name) and f.value.id == "mido" and "mido" not in st.env:
+            return self.mido_call(f.attr, e, st)
+        if isinstance(f, ast.Name) and f.id == "hasattr":
+            v = self.ev(e.args[0], st)
+            nm = self.ev(e.args[1], st)
+            if isinstance(v, Ref) and v.cls == "MidoMsg" and isinstance(nm, StrV) and nm.const() in self.ctx.schema["MidoMsg"]:
+                return BoolV(z3.Not(self.read_field(st, v, nm.const()).none_term()))      # an absent attribute is modelled as None
+            if isinstance(v, Ref) and isinstance(nm, StrV) and nm.const() is not None:
+                return BoolV(any(nm.const() in self.ctx.schema.get(c_, {}) for c_ in self.ctx.mro(v.cls)))
+            raise VCError("hasattr form")
         if isinstance(f, ast.Attribute):
             # expression-level method calls without forking
             if f.attr == "is_integer":
@@ -1088,6 +1118,30 @@ class Exec:
                 if xi is not None:
                     return TDIV(xi, z3.IntVal(ch[0].denominator_as_long()))
         return None
+
+    MIDO_KINDS = ["note_on", "note_off", "time_signature", "key_signature", "control_change", "program_change"]
+
+    def mido_call(self, what, e, st):
+        """A: mido.Message / mido.MetaMessage are records that store their keyword arguments; mido.MidiTrack is a list"""
+        self.notes.append("A: mido.Message / mido.MetaMessage store their keyword arguments unchanged; mido.MidiTrack behaves as a list")
+        if what == "MidiTrack":
+            return self.new_list(st, "ref:MidoMsg", 0)
+        if what in ("Message", "MetaMessage"):
+            kind = self.ev(e.args[0], st)
+            if not isinstance(kind, StrV) or kind.const() not in self.MIDO_KINDS:
+                raise VCError("mido message kind")
+            r = Ref(self.alloc(st, "mido"), "MidoMsg")
+            for f_ in self.ctx.schema["MidoMsg"]:
+                if f_ != "type":
+                    self.write_field(st, r, f_, NONE)
+            self.write_field(st, r, "type", EnumV(self.MIDO_KINDS.index(kind.const()), "MidoKind"))
+            for kw in e.keywords:
+                v = self.ev(kw.value, st)
+                if isinstance(v, Opaque) and isinstance(v.what, tuple) and v.what[0] == "enum-value":
+                    v = v.what[1]          # key=<Key member>.value : the key name string stands for the member
+                self.write_field(st, r, kw.arg, v)
+            return r
+        raise VCError(f"mido.{what}")
 
     def peek(self, e, st):
         try:
@@ -1434,6 +1488,9 @@ class Exec:
             def cont(e, s):
                 s = s.cp()
                 r = self.ev(e, s)
+                if isinstance(r, ListV) and tgt.attr == "name":
+                    self.notes.append("dropped: assignment of a display name to a mido track")
+                    return [("n", s, None)]
                 if not isinstance(r, Ref):
                     raise VCError("attribute store on non-object")
                 self.need(r, s, "object of attribute store")
